@@ -56,5 +56,26 @@ CLAIMS = {
         "technique": "Coq proof (step-guard invariant over the generated step list, exact regex classes) + data obligations + spec-oracle and correspondence streams",
         "design_ref": "DESIGN.md §4 C05",
     },
+    "C10": {
+        "text": "Theorems C10_whitespace, C10_case (texts differing only by inserted whitespace of any \\s kind or by ASCII letter "
+                "case have the same compact form), C10_outcome_* (every constructor outcome and object is a function of the "
+                "compact form), C10_compact (no whitespace, no ASCII lower case, fixpoint of upper and clean), "
+                "C10_iban_formatted (groups of four joined by single spaces; parses back, for every IBAN object), "
+                "C10_bic_formatted (parts joined by single spaces; parses back, for every BIC of length 8 or 11 — for other lengths of "
+                "unvalidated BICs the round trip is false, e.g. 'GENOD', so the clause is stated for accepted lengths). Environment laws "
+                "(env_wf: upper() outputs are non-space upper fixpoints) are discharged by vm_compute on the interpreter's tables.",
+        "note": COMMON_NOTE,
+        "technique": "Coq proof (list lemmas over filter/flat_map, finite environment check by vm_compute) + correspondence",
+        "design_ref": "DESIGN.md §4 C10",
+    },
+    "C11": {
+        "text": "Theorems C11_iban_parts (cc ++ dd ++ bban = compact; from_bban(cc, bban) = the same IBAN), C11_component (each component "
+                "is the substring at the published range, empty if none), C11_disjoint (ranges in bounds, pairwise disjoint: data "
+                "obligation over all rows), C11_bic_parts; accessor tables (IBAN.p -> bban.p -> Component p, slice constants) are "
+                "regenerated from the one-line property bodies and checked by obligation C11_acc_obl.",
+        "note": COMMON_NOTE,
+        "technique": "Coq proof (slice lemmas, C02 uniqueness) + generated accessor/position obligations + correspondence",
+        "design_ref": "DESIGN.md §4 C11",
+    },
 }
 NOT_APPLICABLE = {}
